@@ -480,6 +480,9 @@ def mixed_cycle_family(ctx, rng, n, static=False):
                     state = "consumer-already-finished" if f_done_first else ("consumer-clean" if not f_ran else "consumer-pending")
                     if static:
                         state = "at-start/consumer-scanned-" + ("later" if tg[0] == "e.out" else "first")
+                    if t["result"].get("exit") == 0 and "stuck" in err:
+                        # not only undiagnosed: nothing built, nothing said, and the exit status of a success (repaired: 12cdd98)
+                        state += "/reported-success-while-stuck"
                     ctx.violation("C17/cycle-not-diagnosed/%s+dyndep-output/%s" % ("declared-input" if declared else "recorded-dependency", state),
                                   "scenario %s targets=%s: f.o %s x.h and the dyndep file loaded in this build makes x.h an output "
                                   "of the statement that consumes f.o, yet ninja exits %s (%r); started %s, finished %s" %
